@@ -48,6 +48,7 @@ type Env struct {
 	st, old  *State
 	pkg      *types.Package
 	backedge bool
+	bound    map[string]bool // names bound by quantifiers / let (not rebound inside old())
 	recName  string   // name of the pure function being defined (for self calls)
 	recComps []string // its state parameters
 	depth    int
@@ -235,6 +236,7 @@ func (e *Env) expr(x Expr) (*SVal, error) {
 			s := c.sortOfS(ty)
 			binds = append(binds, fmt.Sprintf("(%s %s)", nm, s))
 			ne.vars[qv.Name] = &SVal{Term{nm, s}, ty}
+			ne.bound = addBound(ne.bound, qv.Name)
 			if ty.Go != nil && qv.Type != "" && qv.Type != "int" {
 				if g := c.typeFact(ty.Go, Term{nm, s}); g.S != "true" {
 					guards = append(guards, g)
@@ -293,6 +295,7 @@ func (e *Env) expr(x Expr) (*SVal, error) {
 		}
 		ne := e.clone()
 		ne.vars[n.Name] = v
+		ne.bound = addBound(ne.bound, n.Name)
 		return ne.expr(n.Body)
 	}
 	return nil, e.errf("unsupported expression %T", x)
@@ -601,6 +604,38 @@ func (e *Env) call(n *ECall) (*SVal, error) {
 		oe.st = e.old
 		if e.old == nil {
 			return nil, e.errf("old() not available here")
+		}
+		// inside old(...) a parameter that the body reassigns denotes its value on entry
+		var reb map[string]*SVal
+		for _, p := range e.t.fn.Params {
+			cur, ok := e.vars[p.Name()]
+			_, isLoc := e.locs[p.Name()]
+			pv := e.t.vals[p]
+			if e.bound[p.Name()] || pv == nil || (!isLoc && ok && cur.T.S == pv.T.S) {
+				continue
+			}
+			if reb == nil {
+				reb = map[string]*SVal{}
+				for k, v := range e.vars {
+					reb[k] = v
+				}
+			}
+			reb[p.Name()] = &SVal{pv.T, goT(p.Type())}
+		}
+		if reb != nil {
+			oe.vars = reb
+			nl := map[string]*Loc{}
+			for k, v := range e.locs {
+				if _, over := reb[k]; !over || e.bound[k] {
+					nl[k] = v
+				}
+			}
+			for _, p := range e.t.fn.Params {
+				if _, isLoc := e.locs[p.Name()]; isLoc && !e.bound[p.Name()] {
+					delete(nl, p.Name())
+				}
+			}
+			oe.locs = nl
 		}
 		return oe.expr(n.Args[0])
 	case "len", "cap":
@@ -973,6 +1008,14 @@ func (t *Tr) defineSpecFunc(f *SpecFunc) (*specDef, error) {
 
 // ---------------------------------------------------------------------------
 // environments
+
+func addBound(m map[string]bool, n string) map[string]bool {
+	out := map[string]bool{n: true}
+	for k := range m {
+		out[k] = true
+	}
+	return out
+}
 
 func (t *Tr) baseEnv(st *State) *Env {
 	e := &Env{t: t, c: t.c, vars: map[string]*SVal{}, locs: map[string]*Loc{}, st: st, old: t.entrySt}
